@@ -1,68 +1,53 @@
 (* YamlProofs: exporting a property tree to a YAML document tree and importing what libyaml's
-   emitter + parser make of it gives the tree back.  libyaml is a Section hypothesis
-   (never an axiom): [rt] is "emit, then parse" on document trees. *)
+   emitter + parser make of it gives the tree back, for every tree of valid UTF-8 text without
+   NUL (YamlText.valid_utf8_no_nul).  libyaml is a Section hypothesis (never an axiom): [rt] is
+   "emit, then parse" on document trees.  The hypotheses are then discharged for the model
+   emitter/parser of YamlText.v (rt_quote: real quoting and escaping at byte level) and for the
+   identity on bytes (yaml_rt_ideal), which gives theorems without hypotheses about [rt]. *)
 Require Import List NArith ZArith Bool Lia.
 Import ListNotations.
 Require Import LV.PropTree.PropModel LV.PropTree.DocSpec LV.PropTree.PropProofs LV.PropTree.QuoteProofs
-        LV.PropTree.RebuildProofs LV.PropTree.YamlModel.
+        LV.PropTree.RebuildProofs LV.PropTree.YamlModel LV.PropTree.YamlText LV.PropTree.YamlTextProofs.
+
+(* every scalar and every RAW key of the tree is valid UTF-8 without NUL (executable) *)
+Lemma tree_text_ok_map kv :
+  tree_text_ok (NMap kv) = true <->
+  Forall (fun p => valid_utf8_no_nul (fst p) = true /\ tree_text_ok (snd p) = true) kv.
+Proof.
+  cbn [tree_text_ok]. rewrite forallb_forall, Forall_forall.
+  split; intros H [k v] Hin; specialize (H (k, v) Hin); cbn [fst snd] in *.
+  - now apply andb_true_iff in H.
+  - now apply andb_true_iff.
+Qed.
+Lemma tree_text_ok_list vec al : tree_text_ok (NList vec al) = true <-> Forall (fun v => tree_text_ok v = true) vec.
+Proof. cbn [tree_text_ok]. now rewrite forallb_forall, Forall_forall. Qed.
+
+Lemma null_has_no_newline v : is_yaml_null v = true -> has_newline v = false.
+Proof.
+  unfold is_yaml_null. rewrite !orb_true_iff, !bytes_eqb_eq.
+  intros [[[H|H]|H]|H]; subst; reflexivity.
+Qed.
+
+Definition good (r : node * bool) (t : node) : Prop := abs (fst r) = abs t /\ snd r = true.
 
 Section Yaml.
   (* what libyaml does to a document tree when it is emitted and parsed again *)
   Variable rt : ynode -> ynode.
-  (* the scalar texts for which that is claimed (valid UTF-8 ...); checks/C14.py tests the
-     hypotheses on the emitted documents of every run *)
-  Variable text_ok : bytes -> Prop.
 
-  (* a scalar keeps its kind and bytes; it is read back as *plain* only if it was emitted with the
-     plain or the "any" style, and a scalar emitted with the plain style is read back plain *)
-  Hypothesis rt_scalar : forall v st, text_ok v ->
+  (* a scalar of valid UTF-8 text without NUL keeps its kind and bytes, and it is read back as
+     *plain* only if it was emitted with the plain or the "any" style *)
+  Hypothesis rt_scalar : forall v st, valid_utf8_no_nul v = true ->
       exists st', rt (YScalar v st) = YScalar v st'
-                  /\ (st = YPlain -> st' = YPlain)
                   /\ (st' = YPlain -> st = YPlain \/ st = YAny).
+  (* the null written by _vnaproperty_yaml_export (plain ~) is read back as a plain ~ *)
+  Hypothesis rt_tilde : rt (YScalar [126%N] YPlain) = YScalar [126%N] YPlain.
   Hypothesis rt_mapping : forall kv, rt (YMapping kv) = YMapping (map (fun p => (rt (fst p), rt (snd p))) kv).
   Hypothesis rt_sequence : forall l, rt (YSequence l) = YSequence (map rt l).
-  Hypothesis tilde_ok : text_ok [126%N].
 
-  (* every scalar and every quoted key of the tree is such a text *)
-  Fixpoint tree_ok (n : node) : Prop :=
-    match n with
-    | NNull => True
-    | NScalar v => text_ok v
-    | NMap kv => (fix all (l : list (bytes * node)) : Prop :=
-                    match l with [] => True | (k, v) :: r => (text_ok (quote_key k) /\ tree_ok v) /\ all r end) kv
-    | NList vec _ => (fix all (l : list node) : Prop :=
-                        match l with [] => True | v :: r => tree_ok v /\ all r end) vec
-    end.
-
-  Lemma tree_ok_map kv :
-    tree_ok (NMap kv) <-> Forall (fun p => text_ok (quote_key (fst p)) /\ tree_ok (snd p)) kv.
+  Lemma import_scalar v :
+    valid_utf8_no_nul v = true -> yaml_import (rt (yaml_export (NScalar v))) NNull = (NScalar v, true).
   Proof.
-    induction kv as [|[k v] r IH].
-    - split; intros; [constructor|exact I].
-    - split; intros H.
-      + simpl in H. destruct H as [H1 H2]. constructor; [exact H1|]. apply IH. exact H2.
-      + inversion H; subst. simpl. split; [assumption|]. apply IH. assumption.
-  Qed.
-  Lemma tree_ok_list vec al : tree_ok (NList vec al) <-> Forall tree_ok vec.
-  Proof.
-    induction vec as [|v r IH].
-    - split; intros; [constructor|exact I].
-    - split; intros H.
-      + simpl in H. destruct H as [H1 H2]. constructor; [exact H1|]. apply IH. exact H2.
-      + inversion H; subst. simpl. split; [assumption|]. apply IH. assumption.
-  Qed.
-
-  Lemma null_has_no_newline v : is_yaml_null v = true -> has_newline v = false.
-  Proof.
-    unfold is_yaml_null. rewrite !orb_true_iff, !bytes_eqb_eq.
-    intros [[[H|H]|H]|H]; subst; reflexivity.
-  Qed.
-
-  Definition good (r : node * bool) (t : node) : Prop := abs (fst r) = abs t /\ snd r = true.
-
-  Lemma import_scalar v : text_ok v -> yaml_import (rt (yaml_export (NScalar v))) NNull = (NScalar v, true).
-  Proof.
-    intros Hv. cbn [yaml_export]. destruct (rt_scalar v (scalar_style v) Hv) as [st' [E [_ Hp]]].
+    intros Hv. cbn [yaml_export]. destruct (rt_scalar v (scalar_style v) Hv) as [st' [E Hp]].
     rewrite E. cbn [yaml_import].
     destruct (is_yaml_null v && is_plain st') eqn:T; [|reflexivity].
     exfalso. apply andb_true_iff in T as [T1 T2].
@@ -74,10 +59,10 @@ Section Yaml.
   Definition ykey (k : bytes) : ynode := YScalar (quote_key k) YAny.
 
   Lemma import_map_loop : forall kv2 kv1',
-      Forall (fun p => wf (snd p) -> tree_ok (snd p) ->
+      Forall (fun p => wf (snd p) -> tree_text_ok (snd p) = true ->
                        good (yaml_import (rt (yaml_export (snd p))) NNull) (snd p)) kv2 ->
       keys_ok (map fst kv1' ++ map fst kv2) -> wf_vals kv2 ->
-      Forall (fun p => text_ok (quote_key (fst p)) /\ tree_ok (snd p)) kv2 ->
+      Forall (fun p => valid_utf8_no_nul (fst p) = true /\ tree_text_ok (snd p) = true) kv2 ->
       let res :=
           fold_left
             (fun (st : node * bool) p =>
@@ -107,7 +92,8 @@ Section Yaml.
       destruct Hkk as [Hne Hl].
       cbv zeta. rewrite !map_cons. cbn [fold_left fst snd].
       change (rt (ykey k)) with (rt (YScalar (quote_key k) YAny)).
-      destruct (rt_scalar (quote_key k) YAny Htk) as [st' [E _]]. rewrite E. cbn [negb].
+      (* the quoted key is valid text because the raw key is (quote_key_valid) *)
+      destruct (rt_scalar (quote_key k) YAny (quote_key_valid k Htk)) as [st' [E _]]. rewrite E. cbn [negb].
       rewrite (step_map_element (quote_key k) k kv1' _ (parse_quote_key k Hne) Hl).
       destruct (HPv Hwv Htv) as [G1 G2]. rewrite G2.
       specialize (IH (kv1' ++ [(k, fst (yaml_import (rt (yaml_export v)) NNull))]) HPr).
@@ -118,8 +104,8 @@ Section Yaml.
   Qed.
 
   Lemma import_list_loop : forall vec2 vec1' al,
-      Forall (fun v => wf v -> tree_ok v -> good (yaml_import (rt (yaml_export v)) NNull) v) vec2 ->
-      wf_items vec2 -> Forall tree_ok vec2 ->
+      Forall (fun v => wf v -> tree_text_ok v = true -> good (yaml_import (rt (yaml_export v)) NNull) v) vec2 ->
+      wf_items vec2 -> Forall (fun v => tree_text_ok v = true) vec2 ->
       (Z.of_nat (length vec1' + length vec2) < INT_MAX)%Z ->
       let res :=
           fold_left
@@ -148,19 +134,18 @@ Section Yaml.
       split; [|exact I2]. rewrite I1. rewrite map_app. cbn [map]. rewrite G1. now rewrite <- app_assoc.
   Qed.
 
-  (* C14: import (emit+parse (export t)) = t, for every well-formed tree of admissible texts *)
-  Theorem yaml_roundtrip : forall t, wf t -> tree_ok t ->
+  (* C14: import (emit+parse (export t)) = t, for every well-formed tree of valid UTF-8 text *)
+  Theorem yaml_roundtrip : forall t, wf t -> tree_text_ok t = true ->
       good (yaml_import (rt (yaml_export t)) NNull) t.
   Proof.
     induction t as [| v | kv IH | vec al IH] using node_ind'; intros Hw Ht.
-    - cbn [yaml_export]. destruct (rt_scalar [126%N] YPlain tilde_ok) as [st' [E [Hp _]]].
-      rewrite E, (Hp eq_refl). split; reflexivity.
+    - cbn [yaml_export]. rewrite rt_tilde. split; reflexivity.
     - rewrite (import_scalar v Ht). split; reflexivity.
-    - apply wf_map in Hw as [Hk Hv]. apply tree_ok_map in Ht.
+    - apply wf_map in Hw as [Hk Hv]. apply tree_text_ok_map in Ht.
       cbn [yaml_export]. rewrite rt_mapping. cbn [yaml_import]. rewrite vset_subtree_map.
       cbn [o_ret ok0 Z.eqb negb map_entries].
       pose proof (import_map_loop kv [] IH Hk Hv Ht) as L. cbv zeta in L. exact L.
-    - apply wf_list in Hw as [Hl Hv]. apply tree_ok_list in Ht.
+    - apply wf_list in Hw as [Hl Hv]. apply tree_text_ok_list in Ht.
       cbn [yaml_export]. rewrite rt_sequence. cbn [yaml_import]. rewrite vset_subtree_list.
       cbn [o_ret ok0 Z.eqb negb list_parts fst snd].
       pose proof (import_list_loop vec [] O IH Hv Ht Hl) as L. cbv zeta in L.
@@ -168,91 +153,377 @@ Section Yaml.
       destruct (fold_left _ _ _) as [[i r] ok]. exact L.
   Qed.
 
-  (* ---------------------------------------------------------------- properties in a calibration file *)
-  Hypothesis properties_ok : text_ok key_properties.
+  (* the public importers replace whatever the root held (DP2 fixed) *)
+  Theorem import_document_replaces root t :
+    wf t -> tree_text_ok t = true -> good (import_document (rt (yaml_export t)) root) t.
+  Proof. intros Hw Ht. unfold import_document. rewrite vdelete_dot. now apply yaml_roundtrip. Qed.
 
+  (* ---------------------------------------------------------------- a whole calibration file *)
+  (* the abstract non-property entries: keys are valid text, different from "properties" and "name" *)
+  Definition not_props (l : list (bytes * ynode)) : Prop :=
+    Forall (fun p => valid_utf8_no_nul (fst p) = true /\ bytes_eqb (fst p) key_properties = false) l.
   Definition other_keys (l : list (bytes * ynode)) : Prop :=
-    Forall (fun p => text_ok (fst p) /\ bytes_eqb (fst p) key_properties = false) l.
+    Forall (fun p => valid_utf8_no_nul (fst p) = true /\ bytes_eqb (fst p) key_properties = false
+                     /\ bytes_eqb (fst p) key_name = false) l.
+
+  Definition calrec_ok (c : calrec) : Prop :=
+    valid_utf8_no_nul (c_name c) = true /\ other_keys (c_pre c) /\ other_keys (c_post c)
+    /\ wf (c_props c) /\ tree_text_ok (c_props c) = true.
+
+  Lemma other_keys_not_props l : other_keys l -> not_props l.
+  Proof. unfold other_keys, not_props. rewrite !Forall_forall. intros H p Hin. destruct (H p Hin); tauto. Qed.
 
   Definition mk_pair (p : bytes * ynode) : ynode * ynode := (YScalar (fst p) YAny, snd p).
   Definition rt_pair (p : ynode * ynode) : ynode * ynode := (rt (fst p), rt (snd p)).
 
-  Lemma rt_other_key p :
-    text_ok (fst p) /\ bytes_eqb (fst p) key_properties = false ->
-    is_properties_key (fst (rt_pair (mk_pair p))) = false.
-  Proof.
-    intros [H1 H2]. unfold rt_pair, mk_pair. cbn [fst].
-    destruct (rt_scalar (fst p) YAny H1) as [st' [E _]]. rewrite E. exact H2.
-  Qed.
-  Lemma rt_properties_key st0 :
-    exists st', rt (YScalar key_properties st0) = YScalar key_properties st'.
-  Proof. destruct (rt_scalar key_properties st0 properties_ok) as [st' [E _]]. eauto. Qed.
+  Lemma rt_key (k : bytes) st0 :
+    valid_utf8_no_nul k = true -> exists st', rt (YScalar k st0) = YScalar k st'.
+  Proof. intros H. destruct (rt_scalar k st0 H) as [st' [E _]]. eauto. Qed.
 
-  Lemma global_skip : forall l st, other_keys l ->
-      fold_left (fun (st : node * bool) p =>
-                   let '(r, ok) := st in
-                   if negb ok then st
-                   else if is_properties_key (fst p) then yaml_import (snd p) r else st)
-                (map rt_pair (map mk_pair l)) st = st.
+  Lemma rt_other_key kb p :
+    valid_utf8_no_nul (fst p) = true -> bytes_eqb (fst p) kb = false ->
+    is_key kb (fst (rt_pair (mk_pair p))) = false.
   Proof.
-    induction l as [|p l IH]; intros st H; [reflexivity|].
-    inversion H; subst. cbn [map fold_left]. rewrite (rt_other_key p) by assumption.
-    destruct st as [r ok]. destruct (negb ok); now apply IH.
+    intros H1 H2. unfold rt_pair, mk_pair. cbn [fst].
+    destruct (rt_key (fst p) YAny H1) as [st' E]. rewrite E. exact H2.
   Qed.
-  Lemma cal_skip : forall l found, other_keys l ->
+
+  Lemma cal_skip : forall l found, not_props l ->
       fold_left (fun (found : option ynode) p => if is_properties_key (fst p) then Some (snd p) else found)
                 (map rt_pair (map mk_pair l)) found = found.
   Proof.
     induction l as [|p l IH]; intros found H; [reflexivity|].
-    inversion H; subst. cbn [map fold_left]. rewrite (rt_other_key p) by assumption. now apply IH.
+    inversion H as [|? ? [H1 H2] Hr]; subst. cbn [map fold_left]. unfold is_properties_key at 2.
+    rewrite (rt_other_key key_properties p H1 H2). now apply IH.
   Qed.
 
-  (* global properties written by vnacal_save and read by vnacal_load *)
-  Theorem calfile_global_properties_rt pre post t :
-    other_keys pre -> other_keys post -> wf t -> tree_ok t ->
-    good (load_global_properties (rt (save_mapping pre post t)) NNull) t.
+  Lemma name_skip : forall l tail cur, other_keys l ->
+      cal_name_from (map rt_pair (map mk_pair l) ++ tail) cur = cal_name_from tail cur.
   Proof.
-    intros Hpre Hpost Hw Ht. unfold save_mapping. rewrite rt_mapping.
-    unfold load_global_properties.
-    change (fun p : bytes * ynode => (YScalar (fst p) YAny, snd p)) with mk_pair.
-    change (fun p : ynode * ynode => (rt (fst p), rt (snd p))) with rt_pair.
-    rewrite map_app, fold_left_app, global_skip by assumption.
-    cbn [map fold_left]. rewrite global_skip by assumption.
-    unfold rt_pair. cbn [fst snd negb].
-    destruct (rt_properties_key YAny) as [st' E]. rewrite E.
-    cbn [is_properties_key]. rewrite bytes_eqb_refl. now apply yaml_roundtrip.
+    induction l as [|p l IH]; intros tail cur H; [reflexivity|].
+    inversion H as [|? ? [H1 [_ H3]] Hr]; subst. cbn [map app cal_name_from].
+    rewrite (rt_other_key key_name p H1 H3). now apply IH.
   Qed.
 
-  (* per-calibration properties *)
-  Theorem calfile_calibration_properties_rt pre post t :
-    other_keys pre -> other_keys post -> wf t -> tree_ok t ->
-    good (load_calibration_properties (rt (save_mapping pre post t))) t.
+  (* the pairs of a saved calibration after emit+parse *)
+  Definition saved_pairs (c : calrec) : list (ynode * ynode) :=
+    map rt_pair (map mk_pair ((key_name, YScalar (c_name c) YAny) :: c_pre c)
+                 ++ (YScalar key_properties YAny, yaml_export (c_props c)) :: map mk_pair (c_post c)).
+
+  Lemma rt_save_cal c : rt (save_cal c) = YMapping (saved_pairs c).
+  Proof. unfold save_cal, save_mapping. now rewrite rt_mapping. Qed.
+
+  Lemma last_properties_saved c :
+    other_keys (c_pre c) -> other_keys (c_post c) ->
+    last_properties (saved_pairs c) = Some (rt (yaml_export (c_props c))).
   Proof.
-    intros Hpre Hpost Hw Ht. unfold save_mapping. rewrite rt_mapping.
-    unfold load_calibration_properties.
-    change (fun p : bytes * ynode => (YScalar (fst p) YAny, snd p)) with mk_pair.
-    change (fun p : ynode * ynode => (rt (fst p), rt (snd p))) with rt_pair.
-    rewrite map_app, fold_left_app, cal_skip by assumption.
-    cbn [map fold_left]. rewrite cal_skip by assumption.
-    unfold rt_pair. cbn [fst snd].
-    destruct (rt_properties_key YAny) as [st' E]. rewrite E.
-    cbn [is_properties_key]. rewrite bytes_eqb_refl. now apply yaml_roundtrip.
+    intros Hpre Hpost. unfold last_properties, saved_pairs.
+    rewrite map_app, fold_left_app, cal_skip.
+    - cbn [map fold_left]. unfold rt_pair at 2. cbn [fst snd].
+      destruct (rt_key key_properties YAny eq_refl) as [st' E]. rewrite E.
+      unfold is_properties_key at 2. cbn [is_key]. rewrite bytes_eqb_refl.
+      now rewrite cal_skip by now apply other_keys_not_props.
+    - constructor; [split; reflexivity|now apply other_keys_not_props].
   Qed.
 
-  (* the public importers replace whatever the root held (DP2 fixed) *)
-  Theorem import_document_replaces root t :
-    wf t -> tree_ok t -> good (import_document (rt (yaml_export t)) root) t.
-  Proof. intros Hw Ht. unfold import_document. rewrite vdelete_dot. now apply yaml_roundtrip. Qed.
+  Lemma cal_name_saved c :
+    valid_utf8_no_nul (c_name c) = true -> other_keys (c_pre c) -> other_keys (c_post c) ->
+    cal_name (saved_pairs c) = Some (c_name c).
+  Proof.
+    intros Hn Hpre Hpost. unfold cal_name, saved_pairs.
+    rewrite map_app. cbn [map].
+    change (mk_pair (key_name, YScalar (c_name c) YAny)) with (YScalar key_name YAny, YScalar (c_name c) YAny).
+    unfold rt_pair at 1. cbn [fst snd app].
+    destruct (rt_key key_name YAny eq_refl) as [s1 E1].
+    destruct (rt_key (c_name c) YAny Hn) as [s2 E2].
+    cbn [cal_name_from fst snd]. rewrite E1, E2. cbn [is_key]. rewrite bytes_eqb_refl.
+    rewrite name_skip by assumption.
+    cbn [cal_name_from]. unfold rt_pair at 1. cbn [fst snd].
+    destruct (rt_key key_properties YAny eq_refl) as [s3 E3]. rewrite E3. cbn [is_key].
+    change (bytes_eqb key_properties key_name) with false. cbv iota.
+    rewrite <- (app_nil_r (map rt_pair (map mk_pair (c_post c)))).
+    now rewrite name_skip by assumption.
+  Qed.
+
+  Variables pre_ok post_ok : others.
+
+  (* parse_set on a saved calibration: the outcome is decided by the non-property steps alone,
+     and when they succeed the new calibration holds the saved properties *)
+  Lemma parse_set_saved c g acc :
+    calrec_ok c ->
+    exists r, abs r = abs (c_props c) /\
+      parse_set pre_ok post_ok (g, acc) (rt (save_cal c)) =
+      if pre_ok (held acc) (saved_pairs c) && post_ok (held acc) (saved_pairs c)
+      then Some (g, add_cal (c_name c) (rt (save_cal c), r) acc) else None.
+  Proof.
+    intros [Hn [Hpre [Hpost [Hw Ht]]]].
+    destruct (yaml_roundtrip (c_props c) Hw Ht) as [G1 G2].
+    exists (fst (yaml_import (rt (yaml_export (c_props c))) NNull)). split; [exact G1|].
+    rewrite rt_save_cal. cbn [parse_set]. rewrite (cal_name_saved c Hn Hpre Hpost).
+    rewrite (last_properties_saved c Hpre Hpost).
+    destruct (yaml_import (rt (yaml_export (c_props c))) NNull) as [r ok]. cbn [fst snd] in *. subst ok.
+    destruct (pre_ok (held acc) (saved_pairs c)); cbn [negb andb]; [|reflexivity].
+    destruct (post_ok (held acc) (saved_pairs c)); reflexivity.
+  Qed.
+
+  Definition cal_step (acc : option load_state) (c : ynode) : option load_state :=
+    match acc with None => None | Some st' => parse_set pre_ok post_ok st' c end.
+
+  Lemma cal_loop_none l : fold_left cal_step l None = None.
+  Proof. induction l; simpl; auto. Qed.
+
+  Lemma held_app a b : held (a ++ b) = held a ++ held b.
+  Proof. unfold held. apply map_app. Qed.
+
+  (* a calibration with a new name takes the next slot *)
+  Lemma add_cal_fresh nm e (acc : cal_vector) : ~ In nm (map fst acc) -> add_cal nm e acc = acc ++ [(nm, e)].
+  Proof. intros H. unfold add_cal. apply lookup_none_iff in H. now rewrite H. Qed.
+
+  Definition fresh_names (cals : list calrec) (acc : cal_vector) : Prop :=
+    NoDup (map c_name cals) /\ forall c, In c cals -> ~ In (c_name c) (map fst acc).
+
+  Lemma fresh_names_step c cals acc e :
+    fresh_names (c :: cals) acc -> fresh_names cals (acc ++ [(c_name c, e)]).
+  Proof.
+    intros [Hnd Hf]. cbn [map] in Hnd. inversion Hnd as [|? ? Hnotin Hnd']; subst. split; [exact Hnd'|].
+    intros c' Hin. rewrite map_app. cbn [map fst]. intros H. apply in_app_or in H as [H|[H|[]]].
+    - apply (Hf c'); [now right|exact H].
+    - apply Hnotin. rewrite H. now apply in_map.
+  Qed.
+
+  Lemma cal_loop_ok : forall cals g acc,
+      Forall calrec_ok cals -> fresh_names cals acc ->
+      others_all_ok pre_ok post_ok (held acc) (map (fun c => rt (save_cal c)) cals) = true ->
+      exists acc', fold_left cal_step (map (fun c => rt (save_cal c)) cals) (Some (g, acc)) = Some (g, acc ++ acc')
+                   /\ map (fun e => abs (snd (snd e))) acc' = map (fun c => abs (c_props c)) cals.
+  Proof.
+    induction cals as [|c cals IH]; intros g acc Hc Hf Hok.
+    - exists []. now rewrite app_nil_r.
+    - inversion Hc as [|? ? Hc1 Hcr]; subst. cbn [map others_all_ok] in Hok.
+      rewrite rt_save_cal in Hok at 1.
+      apply andb_true_iff in Hok as [Hthis Hrest].
+      destruct (parse_set_saved c g acc Hc1) as [r [Hr Hp]]. rewrite Hthis in Hp.
+      rewrite add_cal_fresh in Hp by (apply (proj2 Hf); now left).
+      cbn [map fold_left cal_step]. rewrite Hp.
+      destruct (IH g (acc ++ [(c_name c, (rt (save_cal c), r))]) Hcr) as [acc' [F M]].
+      { now apply fresh_names_step. }
+      { rewrite held_app. exact Hrest. }
+      exists ((c_name c, (rt (save_cal c), r)) :: acc'). split.
+      + rewrite F. now rewrite <- app_assoc.
+      + cbn [map snd]. now rewrite Hr, M.
+  Qed.
+
+  Lemma cal_loop_fail : forall cals g acc,
+      Forall calrec_ok cals -> fresh_names cals acc ->
+      others_all_ok pre_ok post_ok (held acc) (map (fun c => rt (save_cal c)) cals) = false ->
+      fold_left cal_step (map (fun c => rt (save_cal c)) cals) (Some (g, acc)) = None.
+  Proof.
+    induction cals as [|c cals IH]; intros g acc Hc Hf Hok; [discriminate|].
+    inversion Hc as [|? ? Hc1 Hcr]; subst. cbn [map others_all_ok] in Hok.
+    rewrite rt_save_cal in Hok at 1.
+    destruct (parse_set_saved c g acc Hc1) as [r [Hr Hp]].
+    rewrite add_cal_fresh in Hp by (apply (proj2 Hf); now left).
+    cbn [map fold_left cal_step]. rewrite Hp.
+    destruct (pre_ok (held acc) (saved_pairs c) && post_ok (held acc) (saved_pairs c)).
+    - cbn [andb] in Hok. apply IH; [assumption|now apply fresh_names_step|]. rewrite held_app. exact Hok.
+    - apply cal_loop_none.
+  Qed.
+
+  (* parse_document on a saved file: the global properties are imported, then the calibrations *)
+  Lemma parse_document_saved v g cals :
+    wf g -> tree_text_ok g = true ->
+    exists g', abs g' = abs g /\
+      parse_document v pre_ok post_ok (rt (save_file g cals)) =
+      fold_left cal_step (map (fun c => rt (save_cal c)) cals) (Some (g', [])).
+  Proof.
+    intros Hw Ht. destruct (yaml_roundtrip g Hw Ht) as [G1 G2].
+    exists (fst (yaml_import (rt (yaml_export g)) NNull)). split; [exact G1|].
+    unfold save_file. rewrite rt_mapping. cbn [map fst snd].
+    destruct (rt_key key_properties YAny eq_refl) as [s1 E1].
+    destruct (rt_key key_calibrations YAny eq_refl) as [s2 E2].
+    rewrite E1, E2, rt_sequence. cbn [parse_document fold_left fst snd].
+    rewrite bytes_eqb_refl.
+    destruct (yaml_import (rt (yaml_export g)) NNull) as [g' ok]. cbn [fst snd] in *. subst ok.
+    change (bytes_eqb key_properties key_calibrations) with false.
+    change (bytes_eqb key_properties key_sets) with false. rewrite andb_false_r. cbn [orb].
+    change (bytes_eqb key_calibrations key_properties) with false.
+    rewrite bytes_eqb_refl. cbn [orb parse_calibrations].
+    rewrite map_map. reflexivity.
+  Qed.
+
+  Lemma fresh_names_nil cals : NoDup (map c_name cals) -> fresh_names cals [].
+  Proof. intros H. split; [exact H|]. intros c _ []. Qed.
+
+  (* (a) when every non-property step of every calibration succeeds, vnacal_load returns the saved
+     global properties and, per calibration and in order, the saved calibration properties *)
+  Theorem calfile_load_rt v g cals :
+    v <> VBad -> wf g -> tree_text_ok g = true -> Forall calrec_ok cals -> NoDup (map c_name cals) ->
+    others_all_ok pre_ok post_ok [] (map (fun c => rt (save_cal c)) cals) = true ->
+    exists g' cs', load_file v pre_ok post_ok (rt (save_file g cals)) = Some (g', cs')
+                   /\ abs g' = abs g /\ map abs cs' = map (fun c => abs (c_props c)) cals.
+  Proof.
+    intros Hv Hw Ht Hc Hn Hok.
+    destruct (parse_document_saved v g cals Hw Ht) as [g' [Hg Hp]].
+    destruct (cal_loop_ok cals g' [] Hc (fresh_names_nil cals Hn) Hok) as [acc' [F M]]. cbn [app] in F.
+    exists g', (map (fun e => snd (snd e)) acc'). split; [|split; [exact Hg|now rewrite map_map]].
+    unfold cal_vector in *. rewrite <- Hp in F. unfold load_file. rewrite F. destruct v; [congruence|reflexivity|reflexivity].
+  Qed.
+
+  (* (b) when the version line is refused, or any non-property step of any calibration fails, the
+     whole load fails: nothing is said about a partially read file because none is returned *)
+  Theorem calfile_load_all_or_nothing v g cals :
+    wf g -> tree_text_ok g = true -> Forall calrec_ok cals -> NoDup (map c_name cals) ->
+    v = VBad \/ others_all_ok pre_ok post_ok [] (map (fun c => rt (save_cal c)) cals) = false ->
+    load_file v pre_ok post_ok (rt (save_file g cals)) = None.
+  Proof.
+    intros Hw Ht Hc Hn [Hv|Hok]; [subst; reflexivity|].
+    destruct (parse_document_saved v g cals Hw Ht) as [g' [Hg Hp]].
+    pose proof (cal_loop_fail cals g' [] Hc (fresh_names_nil cals Hn) Hok) as F.
+    unfold cal_vector in *. rewrite <- Hp in F. unfold load_file. rewrite F. now destruct v.
+  Qed.
 End Yaml.
 
-(* the hypotheses are satisfiable: the "ideal" round trip of YamlModel meets them for every text *)
-Lemma rt_ideal_scalar : forall v st, True ->
+(* ------------------------------------------------------------------ instance 1: the model emitter / parser.
+   rt_quote (YamlText.v) writes every scalar as YAML text - plain when safe, otherwise in double
+   quotes with escapes - and parses that text back.  It meets the hypotheses for EVERY byte string,
+   so the round trip through it needs no assumption about [rt].  This is a model emitter, not
+   libyaml: it shows that the hypotheses are consistent with real quoting. *)
+Lemma rt_quote_scalar_valid : forall v st, valid_utf8_no_nul v = true ->
+    exists st', rt_quote (YScalar v st) = YScalar v st' /\ (st' = YPlain -> st = YPlain \/ st = YAny).
+Proof. intros v st _. apply rt_quote_scalar. Qed.
+
+Theorem yaml_roundtrip_model_emitter t :
+  wf t -> tree_text_ok t = true -> good (yaml_import (rt_quote (yaml_export t)) NNull) t.
+Proof.
+  exact (yaml_roundtrip rt_quote rt_quote_scalar_valid rt_quote_tilde rt_quote_mapping rt_quote_sequence t).
+Qed.
+
+Theorem import_document_replaces_model_emitter root t :
+  wf t -> tree_text_ok t = true -> good (import_document (rt_quote (yaml_export t)) root) t.
+Proof.
+  exact (import_document_replaces rt_quote rt_quote_scalar_valid rt_quote_tilde rt_quote_mapping rt_quote_sequence root t).
+Qed.
+
+Theorem calfile_load_rt_model_emitter pre_ok post_ok v g cals :
+  v <> VBad -> wf g -> tree_text_ok g = true -> Forall calrec_ok cals -> NoDup (map c_name cals) ->
+  others_all_ok pre_ok post_ok [] (map (fun c => rt_quote (save_cal c)) cals) = true ->
+  exists g' cs', load_file v pre_ok post_ok (rt_quote (save_file g cals)) = Some (g', cs')
+                 /\ abs g' = abs g /\ map abs cs' = map (fun c => abs (c_props c)) cals.
+Proof.
+  exact (calfile_load_rt rt_quote rt_quote_scalar_valid rt_quote_tilde rt_quote_mapping rt_quote_sequence
+                         pre_ok post_ok v g cals).
+Qed.
+
+(* a concrete tree: a null, the null look-alikes ~ and null, a key that needs descriptor quoting
+   ("a.b "), a one-space key, a multi-line scalar, and scalars / keys with double quote, backslash,
+   TAB, ": ", "- ", " #", leading and trailing spaces, a control character, NEL, LS, BOM, 2-, 3- and
+   4-byte UTF-8, the empty string, an empty map inside a list *)
+Definition hostile_tree : node :=
+  NMap [([97; 46; 98; 32], NScalar [126]);                                          (* "a.b " -> ~ *)
+        ([110], NList [NNull; NScalar [110; 117; 108; 108]; NMap []; NScalar []] 8);
+        ([32], NScalar [108; 49; 10; 108; 50]);                                     (* " " -> l1 LF l2 *)
+        ([107; 58; 32; 34], NScalar hostile_text);                                  (* k: dquote *)
+        ([45; 32; 120], NScalar [32; 97; 32; 35; 98; 32]);                          (* "- x" -> " a #b " *)
+        ([194; 133; 226; 128; 168], NScalar [239; 187; 191; 240; 159; 152; 128; 228; 184; 173; 1]);
+        ([112], NScalar [112; 108; 97; 105; 110; 32; 116; 101; 120; 116])]%N.        (* plain text *)
+
+Example hostile_tree_text_ok : tree_text_ok hostile_tree = true.
+Proof. vm_compute. reflexivity. Qed.
+Example hostile_tree_roundtrip_model_emitter :
+  fst (yaml_import (rt_quote (yaml_export hostile_tree)) NNull) = hostile_tree
+  /\ snd (yaml_import (rt_quote (yaml_export hostile_tree)) NNull) = true.
+Proof. vm_compute. split; reflexivity. Qed.
+
+(* in that round trip scalars really are quoted and escaped: the emitted text of these scalars and
+   keys of hostile_tree differs from their bytes, the text of the last one does not *)
+Example hostile_tree_emitted_texts :
+  map (fun v => emit_scalar v (scalar_style v)) [[126]; [108; 49; 10; 108; 50]; [32; 97; 32; 35; 98; 32]; []]%N
+  = [[34; 126; 34]; [34; 108; 49; 92; 110; 108; 50; 34]; [34; 32; 97; 32; 35; 98; 32; 34]; [34; 34]]%N
+  /\ emit_scalar (quote_key [107; 58; 32; 34]%N) YAny = [34; 107; 92; 92; 58; 32; 92; 92; 92; 34; 34]%N
+  /\ emit_scalar (quote_key [194; 133; 226; 128; 168]%N) YAny = [34; 92; 120; 56; 53; 92; 76; 34]%N
+  /\ emit_scalar [112; 108; 97; 105; 110; 32; 116; 101; 120; 116]%N YAny = [112; 108; 97; 105; 110; 32; 116; 101; 120; 116]%N.
+Proof. vm_compute. repeat split; reflexivity. Qed.
+
+(* the tree that the reviewer's counter-example names is outside the text class *)
+Example not_text_example : tree_text_ok (NScalar [0; 300]%N) = false.
+Proof. reflexivity. Qed.
+
+(* ------------------------------------------------------------------ a whole calibration file, concretely *)
+Definition ex_cal (name : bytes) (t : node) : calrec :=
+  mkCal name [([114; 111; 119; 115], YScalar [49] YAny)]%N t [([100; 97; 116; 97], YSequence [])]%N.
+Definition ex_cals : list calrec :=
+  [ex_cal [99; 49]%N hostile_tree; ex_cal [99; 50]%N NNull; ex_cal [99; 51]%N (NScalar [110; 117; 108; 108]%N)].
+
+(* all steps succeed: the three calibrations carry their properties, the global root too *)
+Example calfile_example_loads :
+  load_file VMajor1 (fun _ _ => true) (fun _ _ => true) (rt_quote (save_file hostile_tree ex_cals))
+  = Some (hostile_tree, [hostile_tree; NNull; NScalar [110; 117; 108; 108]%N]).
+Proof. vm_compute. reflexivity. Qed.
+(* the hypothesis "others_all_ok" of calfile_load_rt is met there, with a condition that looks at its arguments *)
+Example calfile_example_others_ok :
+  others_all_ok (fun done kv => Nat.eqb (length kv) 4) (fun done _ => Nat.ltb (length done) 3) []
+                (map (fun c => rt_quote (save_cal c)) ex_cals) = true.
+Proof. vm_compute. reflexivity. Qed.
+(* the third calibration fails after its properties were imported (e.g. duplicate name, bad data):
+   the whole load fails although every properties entry is fine *)
+Example calfile_example_late_failure :
+  load_file VMajor1 (fun _ _ => true) (fun done _ => Nat.ltb (length done) 2) (rt_quote (save_file hostile_tree ex_cals)) = None.
+Proof. vm_compute. reflexivity. Qed.
+Example calfile_example_bad_version :
+  load_file VBad (fun _ _ => true) (fun _ _ => true) (rt_quote (save_file hostile_tree ex_cals)) = None.
+Proof. reflexivity. Qed.
+(* a hand-made document (not one vnacal_save writes): a property key that is not a descriptor
+   ("[") makes the properties import fail, and with it the whole load; an unknown top-level key
+   is ignored; two "properties" entries at top level merge, in a calibration the last one wins *)
+Example calfile_example_bad_property_key :
+  load_file VMajor1 (fun _ _ => true) (fun _ _ => true)
+    (YMapping [(YScalar key_properties YPlain, YMapping [(YScalar [91]%N YPlain, YScalar [49]%N YPlain)]);
+               (YScalar key_calibrations YPlain, YSequence [])]) = None.
+Proof. vm_compute. reflexivity. Qed.
+Example calfile_example_merge_and_last :
+  load_file VMajor1 (fun _ _ => true) (fun _ _ => true)
+    (YMapping [(YScalar key_properties YPlain, YMapping [(YScalar [97]%N YPlain, YScalar [49]%N YPlain)]);
+               (YScalar [120]%N YPlain, YSequence [YScalar [63]%N YPlain]);
+               (YScalar key_properties YPlain, YMapping [(YScalar [98]%N YPlain, YScalar [50]%N YPlain)]);
+               (YScalar key_calibrations YPlain,
+                YSequence [YMapping [(YScalar key_name YPlain, YScalar [99]%N YPlain);
+                                     (YScalar key_properties YPlain, YScalar [49]%N YPlain);
+                                     (YScalar key_properties YPlain, YScalar [50]%N YPlain)]])])
+  = Some (NMap [([97]%N, NScalar [49]%N); ([98]%N, NScalar [50]%N)], [NScalar [50]%N]).
+Proof. vm_compute. reflexivity. Qed.
+(* "sets" is read as the list of calibrations only by a version-0 file *)
+Example calfile_example_sets :
+  (load_file VMajor0 (fun _ _ => true) (fun _ _ => true)
+     (YMapping [(YScalar key_sets YPlain, YSequence [YMapping [(YScalar key_name YPlain, YScalar [99]%N YPlain)]])]),
+   load_file VMajor1 (fun _ _ => true) (fun _ _ => true)
+     (YMapping [(YScalar key_sets YPlain, YSequence [YMapping [(YScalar key_name YPlain, YScalar [99]%N YPlain)]])]))
+  = (Some (NNull, [NNull]), Some (NNull, [])).
+Proof. vm_compute. reflexivity. Qed.
+(* a calibration without a name, or whose name is not a scalar, fails the load; a second
+   calibration with the name of an earlier one replaces it in its slot *)
+Example calfile_example_names :
+  (load_file VMajor1 (fun _ _ => true) (fun _ _ => true)
+     (YMapping [(YScalar key_calibrations YPlain, YSequence [YMapping []])]),
+   load_file VMajor1 (fun _ _ => true) (fun _ _ => true)
+     (YMapping [(YScalar key_calibrations YPlain,
+                 YSequence [YMapping [(YScalar key_name YPlain, YSequence []); (YScalar key_name YPlain, YScalar [99]%N YPlain)]])]),
+   load_file VMajor1 (fun _ _ => true) (fun _ _ => true)
+     (YMapping [(YScalar key_calibrations YPlain,
+                 YSequence [YMapping [(YScalar key_name YPlain, YScalar [99]%N YPlain); (YScalar key_properties YPlain, YScalar [49]%N YPlain)];
+                            YMapping [(YScalar key_name YPlain, YScalar [100]%N YPlain); (YScalar key_properties YPlain, YScalar [50]%N YPlain)];
+                            YMapping [(YScalar key_name YPlain, YScalar [99]%N YPlain); (YScalar key_properties YPlain, YScalar [51]%N YPlain)]])]))
+  = (None, None, Some (NNull, [NScalar [51]%N; NScalar [50]%N])).
+Proof. vm_compute. reflexivity. Qed.
+
+(* ------------------------------------------------------------------ instance 2: the identity on bytes.
+   yaml_rt_ideal keeps every scalar's bytes and reads every "any" scalar back plain: the weakest
+   witness (no quoting at all); kept because the extracted driver uses it for its predictions. *)
+Lemma rt_ideal_scalar : forall v st, valid_utf8_no_nul v = true ->
     exists st', yaml_rt_ideal (YScalar v st) = YScalar v st'
-                /\ (st = YPlain -> st' = YPlain)
                 /\ (st' = YPlain -> st = YPlain \/ st = YAny).
 Proof.
   intros v st _. exists (match st with YAny => YPlain | s => s end). split; [reflexivity|].
-  destruct st; split; intros H; try discriminate; auto.
+  destruct st; intros H; try discriminate; auto.
 Qed.
 Lemma rt_ideal_mapping kv :
   yaml_rt_ideal (YMapping kv) = YMapping (map (fun p => (yaml_rt_ideal (fst p), yaml_rt_ideal (snd p))) kv).
@@ -260,46 +531,52 @@ Proof. simpl. f_equal. apply map_ext. intros [k v]. reflexivity. Qed.
 Lemma rt_ideal_sequence l : yaml_rt_ideal (YSequence l) = YSequence (map yaml_rt_ideal l).
 Proof. reflexivity. Qed.
 
-Theorem yaml_roundtrip_ideal t :
-  wf t -> abs (fst (yaml_import (yaml_rt_ideal (yaml_export t)) NNull)) = abs t
-          /\ snd (yaml_import (yaml_rt_ideal (yaml_export t)) NNull) = true.
+Theorem yaml_roundtrip_identity_witness t :
+  wf t -> tree_text_ok t = true -> good (yaml_import (yaml_rt_ideal (yaml_export t)) NNull) t.
 Proof.
-  intros Hw.
-  apply (yaml_roundtrip yaml_rt_ideal (fun _ => True) rt_ideal_scalar rt_ideal_mapping rt_ideal_sequence I t Hw).
-  clear Hw. induction t as [| v | kv IH | vec al IH] using node_ind'; try exact I.
-  - apply tree_ok_map. induction IH as [|[k v] r H _ IHr]; constructor; [split; [exact I|exact H]|exact IHr].
-  - apply tree_ok_list. exact IH.
+  exact (yaml_roundtrip yaml_rt_ideal rt_ideal_scalar eq_refl rt_ideal_mapping rt_ideal_sequence t).
 Qed.
 
+(* ------------------------------------------------------------------ null look-alikes *)
 Lemma null_lookalike_quoted (v : bytes) :
   is_yaml_null v = true -> yaml_export (NScalar v) = YScalar v YDouble.
 Proof.
   intros H. unfold yaml_export, scalar_style. now rewrite (null_has_no_newline v H), H.
 Qed.
 
-(* a concrete non-trivial tree: null look-alikes, a key that needs quoting, a nested list *)
-Definition example_tree : node :=
-  NMap [([97%N; 46%N; 98%N; 32%N], NScalar [126%N]);
-        ([110%N], NList [NNull; NScalar [110%N; 117%N; 108%N; 108%N]; NMap []] 8);
-        ([32%N], NScalar [108%N; 49%N; 10%N; 108%N; 50%N])].
-Example example_tree_roundtrip :
-  fst (yaml_import (yaml_rt_ideal (yaml_export example_tree)) NNull) = example_tree.
-Proof. vm_compute. reflexivity. Qed.
-
-(* satisfiability of the calibration-file theorems: the ideal round trip, any other keys *)
-Theorem calfile_properties_rt_ideal pre post t :
-  other_keys (fun _ => True) pre -> other_keys (fun _ => True) post -> wf t ->
-  good (load_global_properties (yaml_rt_ideal (save_mapping pre post t)) NNull) t /\
-  good (load_calibration_properties (yaml_rt_ideal (save_mapping pre post t))) t.
+(* the calibration-file examples in one statement (cited by Properties_C14) *)
+Lemma calfile_examples :
+  Forall (calrec_ok) ex_cals /\ NoDup (map c_name ex_cals)
+  /\ others_all_ok (fun done kv => Nat.eqb (length kv) 4) (fun done _ => Nat.ltb (length done) 3) []
+                   (map (fun c => rt_quote (save_cal c)) ex_cals) = true
+  /\ load_file VMajor1 (fun _ _ => true) (fun _ _ => true) (rt_quote (save_file hostile_tree ex_cals))
+     = Some (hostile_tree, [hostile_tree; NNull; NScalar [110; 117; 108; 108]%N])
+  /\ load_file VMajor1 (fun _ _ => true) (fun done _ => Nat.ltb (length done) 2) (rt_quote (save_file hostile_tree ex_cals)) = None
+  /\ load_file VBad (fun _ _ => true) (fun _ _ => true) (rt_quote (save_file hostile_tree ex_cals)) = None
+  /\ load_file VMajor1 (fun _ _ => true) (fun _ _ => true)
+       (YMapping [(YScalar key_properties YPlain, YMapping [(YScalar [91]%N YPlain, YScalar [49]%N YPlain)]);
+                  (YScalar key_calibrations YPlain, YSequence [])]) = None.
 Proof.
-  intros Hpre Hpost Hw.
-  assert (Ht : tree_ok (fun _ => True) t).
-  { clear. induction t as [| v | kv IH | vec al IH] using node_ind'; try exact I.
-    - apply tree_ok_map. induction IH as [|[k v] r H _ IHr]; constructor; [split; [exact I|exact H]|exact IHr].
-    - apply tree_ok_list. exact IH. }
-  split.
-  - apply (calfile_global_properties_rt yaml_rt_ideal (fun _ => True) rt_ideal_scalar rt_ideal_mapping
-             rt_ideal_sequence I I pre post t Hpre Hpost Hw Ht).
-  - apply (calfile_calibration_properties_rt yaml_rt_ideal (fun _ => True) rt_ideal_scalar rt_ideal_mapping
-             rt_ideal_sequence I I pre post t Hpre Hpost Hw Ht).
+  split; [|split; [|repeat split; vm_compute; reflexivity]].
+  2:{ cbn [map ex_cals c_name ex_cal].
+      repeat (constructor; [cbn [In]; intros H; repeat (destruct H as [H|H]; [discriminate|]); exact H|]).
+      constructor. }
+  assert (W : wf hostile_tree).
+  { unfold hostile_tree, wf, keys_ok. cbn [map fst].
+    repeat match goal with
+           | |- _ /\ _ => split
+           | |- True => exact I
+           | |- Forall _ [] => constructor
+           | |- Forall _ (_ :: _) => constructor; [discriminate|]
+           | |- NoDup [] => constructor
+           | |- NoDup (_ :: _) => constructor; [cbn [In]; intros H; repeat (destruct H as [H|H]; [discriminate|]); exact H|]
+           end.
+    unfold INT_MAX. simpl. lia. }
+  assert (K : forall name t, wf t -> tree_text_ok t = true -> valid_utf8_no_nul name = true -> calrec_ok (ex_cal name t)).
+  { intros name t Hw Ht Hn. unfold calrec_ok, ex_cal, other_keys. cbn [c_pre c_post c_props].
+    repeat split; try assumption; repeat constructor. }
+  unfold ex_cals.
+  constructor; [apply K; [exact W|reflexivity|reflexivity]|].
+  constructor; [apply K; [exact I|reflexivity|reflexivity]|].
+  constructor; [apply K; [exact I|reflexivity|reflexivity]|constructor].
 Qed.
